@@ -376,7 +376,18 @@ func histCase(out *hx.Out, ci, keyed bool, ncols int, ops []op, queries []string
 			}
 			return "(" + hx.HexS(r[0]) + " " + last(r) + ")"
 		})
-		tb := sortedRows(e.Query(ctx, "SELECT id FROM t"), func(r []string) string { return r[0] })
+		// table contents (NULL is rendered as the text NULL by the client protocol; the vocabulary has no such word)
+		tb := sortedRows(e.Query(ctx, "SELECT id, "+ftCols+" FROM t"), func(r []string) string {
+			parts := []string{r[0]}
+			for _, c := range r[1:] {
+				if c == "NULL" {
+					parts = append(parts, "null")
+				} else {
+					parts = append(parts, hx.HexS(c))
+				}
+			}
+			return "(" + strings.Join(parts, " ") + ")"
+		})
 		obs = "t=" + tb + " mw=" + plist(mw) + " me=" + plist(me) + " dc=" + dc + " gc=" + gc + " rc=" + rc + " pos=" + pos
 	})
 	if p != "" {
@@ -451,9 +462,48 @@ func genCols(r *hx.Rand, ncols int) []*string {
 	return cols
 }
 
-func genHist(r *hx.Rand, keyed bool, ncols int) []op {
+// foldVariant: the two column tuples differ in bytes but are equal under an ASCII case-insensitive collation.
+func foldVariant(x, y []*string) bool {
+	same := true
+	for i := range x {
+		if (x[i] == nil) != (y[i] == nil) {
+			return false
+		}
+		if x[i] == nil {
+			continue
+		}
+		if lowerASCII(*x[i]) != lowerASCII(*y[i]) {
+			return false
+		}
+		if *x[i] != *y[i] {
+			same = false
+		}
+	}
+	return !same
+}
+
+// genHist generates a DML history. Envelope: on a case-insensitive table an UPDATE never sets the text
+// columns to a case variant of a tuple used earlier in the history — the engine skips an UPDATE whose new
+// row equals the old one under the column collation (`UPDATE u SET a='APPLE'` leaves 'apple', with or
+// without a FULLTEXT index; a defect of UPDATE, not of this property: the index follows the table).
+func genHist(r *hx.Rand, ci, keyed bool, ncols int) []op {
 	n := r.Range(1, 9)
 	var ops []op
+	var used [][]*string
+	genUpd := func() []*string {
+		for {
+			c := genCols(r, ncols)
+			ok := true
+			for _, u := range used {
+				if ci && foldVariant(c, u) {
+					ok = false
+				}
+			}
+			if ok {
+				return c
+			}
+		}
+	}
 	live := map[int]bool{}
 	ids := func() []int {
 		var l []int
@@ -483,9 +533,12 @@ func genHist(r *hx.Rand, keyed bool, ncols int) []op {
 				}
 			}
 			ops = append(ops, o)
+			used = append(used, o.cols)
 			live[o.id] = true
 		case k < 7:
-			ops = append(ops, op{kind: "upd", id: hx.Pick(r, l), cols: genCols(r, ncols)})
+			o := op{kind: "upd", id: hx.Pick(r, l), cols: genUpd()}
+			ops = append(ops, o)
+			used = append(used, o.cols)
 		case k < 9:
 			id := hx.Pick(r, l)
 			ops = append(ops, op{kind: "del", id: id})
@@ -573,9 +626,10 @@ func run(a hx.RunArgs) error {
 	for i := 0; i < nHist; i++ {
 		keyed := rnd.Chance(1, 2)
 		ncols := rnd.Range(1, 2)
-		ops := genHist(rnd, keyed, ncols)
+		ci := rnd.Chance(1, 2)
+		ops := genHist(rnd, ci, keyed, ncols)
 		qs := []string{hx.Pick(rnd, vocab), genDoc(rnd), hx.Pick(rnd, vocab) + " " + hx.Pick(rnd, vocab)}
-		histCase(out, rnd.Chance(1, 2), keyed, ncols, ops, qs)
+		histCase(out, ci, keyed, ncols, ops, qs)
 	}
 	return nil
 }
